@@ -493,7 +493,7 @@ class Ctx:
         return out
 
     # ---------------------------------------------------------------- trace validation
-    def validate(self, module, cfg, trace_path, timeout=900, count_resets=True, deque=False, heap="6g"):
+    def validate(self, module, cfg, trace_path, timeout=900, count_resets=True, deque=False, heap="6g", stack=None):
         """Validate an ndjson trace against a monitor spec (uses TraceIO registers).
 
         Returns dict(accepted, clause, line, consumed, length)."""
@@ -515,7 +515,11 @@ class Ctx:
                     nres += 1
         if nlines == 0:
             raise Inconclusive("empty trace " + trace_path)
-        r = self.tlc(module, cfg, workers=1, timeout=timeout, cwd=d, deque=deque, heap=heap)
+        r = self.tlc(module, cfg, workers=1, timeout=timeout, cwd=d, deque=deque, heap=heap, stack=stack)
+        try:
+            open(os.path.join(d, "tlc.out"), "w").write(r.out)
+        except OSError:
+            pass
         flat = re.sub(r"\s+", " ", r.out)
         m = re.search(r'<< ?"VERIF_VERDICT", "([^"]*)", (\d+), (\d+), (\d+), "([^"]*)", (\d+), (\d+) ?>>', flat)
         if not m:
